@@ -27,7 +27,7 @@ func propTruth(t *rapid.T) {
 	})
 	if m.Count["checkstate_mixed_states"] > 0 || m.Count["restore_mixed"] > 0 {
 		rec.NonTrivial(strings.Join(m.Trace, "|"))
-		for _, k := range []string{"checkstate_mixed_states", "restore_mixed", "restart", "rotation", "melt_PENDING", "melt_UNPAID", "melt_PAID", "spend_with_witness"} {
+		for _, k := range []string{"checkstate_mixed_states", "restore_mixed", "restart", "rotation", "melt_PENDING", "melt_UNPAID", "melt_PAID", "spend_with_witness", "outputs_upper_case_hex", "restore_of_refused_output", "restore_probe_after_refusal"} {
 			if m.Count[k] > 0 {
 				rec.Class("history_with_" + k)
 			}
